@@ -39,6 +39,9 @@ var c02Signers = []c02Signer{
 	{"K1+content-altered", "K1", "", "content"},
 	{"K1+sigvalue-altered", "K1", "", "sigvalue"},
 	{"K1+digest-altered", "K1", "", "digest"},
+	// no KeyInfo, signed by the roll-over key: in a store of several certificates of which only
+	// that key's is currently valid this is still a signature that names nobody
+	{"K2+nokeyinfo", "K2", "none", ""},
 }
 
 var c02Stores = [][]string{{"K1"}, {}, {"K2"}, {"K1", "K2"}, {"K2", "K1"}, {"K1", "K2", "K3"}, {"KX"},
@@ -301,7 +304,7 @@ func c02Replay(raw json.RawMessage) ([]string, string) {
 }
 
 func c02Run(r *mc.Run) {
-	r.Rule = "full product kind(7) x signer state(12) x store(9, up to 7 certificates) x clock position(11: both ends of two certificate windows, +-1s) x presentation(2) x signature placement and layout(3: directly under the signed element, nested in an Extensions child, directly under it with the base64 values starting on a new line and wrapped at 64 columns; for signatures that are not honoured also with every such line indented by spaces, which makes the values unreadable as plain base64); a case is non-trivial when the message passed decoding and reached signature processing (every case here does: all are well-formed signed messages); distinct = distinct (kind,signer,store,clock,presentation)"
+	r.Rule = "full product kind(7) x signer state(13) x store(9, up to 7 certificates) x clock position(11: both ends of two certificate windows, +-1s) x presentation(2) x signature placement and layout(3: directly under the signed element, nested in an Extensions child, directly under it with the base64 values starting on a new line and wrapped at 64 columns; for signatures that are not honoured also with every such line indented by spaces, which makes the values unreadable as plain base64); a case is non-trivial when the message passed decoding and reached signature processing (every case here does: all are well-formed signed messages); distinct = distinct (kind,signer,store,clock,presentation)"
 	r.Assume("goxmldsig canonicalisers (used by the harness signer) are correct", "RSA/ECDSA unforgeable")
 	var cases []c02Case
 	n, complete := mc.Enumerate(-1, r.Expired, func(c *mc.Chooser) {
@@ -328,7 +331,7 @@ func c02Run(r *mc.Run) {
 		c := cases[i]
 		keys, detail := c02Exec(c)
 		r.Eval(1)
-		r.Nontrivial(fmt.Sprintf("%s/%d/%v/%s/%v/%v/%v", c.Kind, c.Signer, c.Conf.Store, c.Clock, c.Deflate, c.Nested, c.Wrapped, c.Indented))
+		r.Nontrivial(fmt.Sprintf("%s/%d/%v/%s/%v/%v/%v/%v", c.Kind, c.Signer, c.Conf.Store, c.Clock, c.Deflate, c.Nested, c.Wrapped, c.Indented))
 		hon := "not-honoured"
 		if strings.Contains(detail, "honoured(model)=true") {
 			hon = "honoured"
